@@ -38,7 +38,7 @@ SPECS['C04'] = {'runs': parse_runs('C04', ['C04'], 5, 6, 3, 4, 5, 6, ip6=True), 
 for _p in ('C01', 'C02', 'C04'):
     SPECS[_p]['runs']['quick'].append(HOSTS_RUN([_p], 600)); SPECS[_p]['runs']['thorough'].append(HOSTS_RUN([_p], 1200)); SPECS[_p]['runs']['thorough'].append(GENTEXT_RUN([_p], 3000))
 SPECS['C05'] = {'runs': parse_runs('C05', ['C05'], 4, 5, 3, 4, 4, 5), 'assumptions': COMMON_ASSUME + ['maxChars: one unconstrained symbolic 32-bit int per URI; charsWritten NULL or not is a symbolic choice'],
-    'bounds': {'quick': 'parsed URIs N<=4 (W 3, M<=4) x every int maxChars', 'thorough': 'N<=5 (W 4, M 5)'}, 'outside': 'ranges >= 2^31 characters'}
+    'bounds': {'quick': 'parsed URIs N<=4 (W 3, M<=4), every authority shape, small resolved and normalised URIs x every int maxChars', 'thorough': 'N<=5 (W 4, M 5), mixed resolved, normalised with all host kinds, created references'}, 'outside': 'ranges >= 2^31 characters'}
 
 # ---------------------------------------------------------------- URI-level operations (shape-bounded texts, see harness/gen.h)
 KFN = []   # known-finding defines are added by ./check from known_findings.json
@@ -77,6 +77,8 @@ def norm_runs(P, tier, full=True):
                R('norm-pct', 'h_norm.c', P + (NORM_PCT_T if tier == 'thorough' else NORM_PCT_Q), 'one percent-encoded triplet with symbolic hex digits at any position of host / path / query (thorough: also user info, fragment)', [cov0], 2400 if tier == 'thorough' else 600)]
     if full:
         rs.append(R('norm-host-pct-case', 'h_norm.c', P + ['KN=0', 'SEGL=1', 'GEN_ALPHA_CASE', 'NFLAGS=(G_AUTH_REQ|G_PCT)', 'MASKS=0,4,63'], 'reg-name hosts of 1..2 tokens, each a letter of either case or a percent triplet with symbolic hex digits (case folding next to percent-encodings)', [cov0], 600))
+    if full:
+        rs.append(R('norm-pct-adjacent', 'h_norm.c', P + ['KN=1', 'SEGL=2', 'GEN_PCT_MAX=2', 'NFLAGS=(G_PCT)', 'MASKS=0,8,63'], 'one path segment of 1..2 tokens, each a letter or a percent triplet with symbolic hex digits (two adjacent triplets)', [cov0], 900))
     if tier == 'thorough':
         rs.append(R('norm-fullmask', 'h_norm.c', P + ['KN=1', 'SEGL=1', 'FULLMASK', 'GEN_ALPHA_CASE', 'NFLAGS=(G_SCHEME_OPT|G_AUTH|G_QUERY)'], 'all 64 masks (symbolic mask byte) on [scheme] [//host] path<=1 [?q]', [cov0], 2400))
     return rs
@@ -107,6 +109,13 @@ SPECS['C11'] = {'runs': {'quick': [R('equals', 'h_equals.c', ['KE=1', 'SEGL=1', 
                                       R('equals-hosts', 'h_equals.c', ['KE=0', 'SEGL=1', 'EFLAGS=(G_AUTH_REQ|G_USERINFO|G_PORT|G_HOSTKINDS)'], 'two authorities of every shape', ['equal', 'different'], 2400)]},
     'assumptions': COMMON_ASSUME, 'bounds': {'quick': 'pairs of small shapes', 'thorough': 'plus <=3 segments and all authority shapes'}, 'outside': 'transitivity is implied by the proved equivalence with text identity, not asserted on triples'}
 
+SPECS['C05']['runs']['quick'] += [HOSTS_RUN(['C05'], 900),
+    R('resolved', 'h_resolve.c', ['P_C05', 'KB=1', 'KR=2', 'SEGL=1'] + RES_PATH, 'resolved URIs (base <=1, reference <=2 one-character segments) x every int maxChars', RESCOV, 600),
+    R('normalized', 'h_norm.c', ['P_C05', 'KN=2', 'SEGL=1', 'NFLAGS=(G_SCHEME_OPT|G_AUTH|G_QUERY|G_FRAG)', 'MASKS=63'], 'normalised (owned) URIs with every optional component x every int maxChars', ['owned-in-place', 'borrowed-copying'], 600)]
+SPECS['C05']['runs']['thorough'] += [HOSTS_RUN(['C05'], 2400),
+    R('resolved', 'h_resolve.c', ['P_C05'] + RES_CM, 'resolved URIs (mixed config) x every int maxChars', ['ref-has-scheme'], 3000),
+    R('normalized', 'h_norm.c', ['P_C05'] + NORM_CASE + ['MASKS=63'], 'normalised URIs, all host kinds x every int maxChars', ['host-ip6'], 3000),
+    R('references', 'h_shorten.c', ['P_C05'] + SHORT, 'created references x every int maxChars', ['schemes-differ'], 3000)]
 # ---------------------------------------------------------------- C07: every producing operation, shared checker chk_reparse_stable
 SPECS['C07'] = {'runs': {
     'quick': [R('parse', 'h_parse.c', ['P_C07', 'NMAX=5'], 'parsed URIs, all texts of length 0..5', ['accepted'], 400),
@@ -227,3 +236,10 @@ SPECS['C20'] = {'runs': {
               R('globals-normalize', 'h_norm.c', NORM_DOTS, 'no store to library globals during normalise', ['owned-in-place'], 1200, expect_writable_globals=['defaultMemoryManager'])]},
     'assumptions': COMMON_ASSUME + ['premises decided symbolically: (i) the only writable static object in the linked library IR is defaultMemoryManager and no path stores to a library global, (ii) no path stores to a read-only shared input, (iii) no path of one thread\'s calls stores to the other thread\'s objects; the interleaving quantifier follows by the footprint argument of DESIGN.md (not explored by the solver); allocator thread-safety is assumed'],
     'bounds': {'quick': 'texts <=3', 'thorough': 'texts <=4'}, 'outside': 'the schedule quantifier itself; thread-safety of the memory manager behind the calls'}
+
+# ---------------------------------------------------------------- thorough only: minimal shapes with every character over its FULL RFC 3986 class
+WIDE = ['GEN_WIDE_CHARS']
+SPECS['C06']['runs']['thorough'].append(R('resolve-wide-chars', 'h_resolve.c', ['P_C06', 'KB=1', 'KR=1', 'SEGL=1', 'BFLAGS=(G_SCHEME_REQ|G_AUTH)', 'RFLAGS=(G_SCHEME_OPT|G_QUERY)'] + WIDE, 'base x:[//h][/s], reference [x:][s][?q] with every character over its full class', ['ref-merged'], 3000))
+SPECS['C08']['runs']['thorough'].append(R('norm-wide-chars', 'h_norm.c', ['P_C08', 'KN=1', 'SEGL=2', 'NFLAGS=(G_SCHEME_OPT|G_AUTH|G_QUERY)', 'MASKS=0,63'] + WIDE, '[x:][//h][/ss][?q] with every character over its full class', ['normal-form-compared'], 3000))
+SPECS['C10']['runs']['thorough'].append(R('shorten-wide-chars', 'h_shorten.c', ['P_C10', 'KS=1', 'KB=1', 'SEGL=1', 'SFLAGS=(G_SCHEME_REQ|G_AUTH)', 'BFLAGS=(G_SCHEME_REQ|G_AUTH)'] + WIDE, 'x:[//h][/s] pairs with every character over its full class', ['schemes-differ'], 3000))
+SPECS['C11']['runs']['thorough'].append(R('equals-wide-chars', 'h_equals.c', ['KE=1', 'SEGL=1', 'EFLAGS=(G_SCHEME_OPT|G_AUTH)'] + WIDE, '[x:][//h][/s] pairs with every character over its full class', ['equal', 'different'], 3000))
